@@ -24,7 +24,7 @@
   * `flush` performs, per line, `l1DCacheLineSize` identical calls of `writeToMemory`
     (the Go loop `for i := 0; i < l1DCacheLineSize; i++` does not use `i`); the calls are
     idempotent, the model performs the write once when the constant is positive
-    (`Proofs/Mmu.lean`, `flushLine_literal`, proves the literal loop equal to it).
+    (the calls are idempotent: `Proofs/Mmu.lean`, `writeToMemory_idem`).
 
   INTERFACE (kept stable; work package MVP4 builds on it): `Config`, `mvp3Config`,
   `mvp4Config`, `mvp5Config`, `Mmu`, `new`, `getFromL1I`, `pushLineToL1I`, `getFromL1D`,
@@ -144,33 +144,65 @@ def memAt (mem : List Byte) (a : Int) : M Byte :=
 def getFromMemory (mem : List Byte) (addrs : List Word) : M (List Byte) :=
   addrs.mapM (fun a => memAt mem a.toInt)
 
-/-- the body of `fetchCacheLine`'s loop for `i = k, k+1, …` (`n` iterations left):
-`if int(addr)+i >= len(Memory) { append 0 } else { append Memory[int(addr)+i] }` -/
-def fetchFrom (mem : List Byte) (lo : Int) : Nat → Nat → M (List Byte)
-  | _, 0 => pure []
-  | k, n + 1 =>
-    if lo + k ≥ mem.length then do
-      let rest ← fetchFrom mem lo (k + 1) n
-      pure (0#8 :: rest)
-    else do
-      let v ← memAt mem (lo + k)
-      let rest ← fetchFrom mem lo (k + 1) n
-      pure (v :: rest)
+/-- `n` bytes from the front of `rest`, zero-padded -/
+def padTake : List Byte → Nat → List Byte
+  | _, 0 => []
+  | [], n + 1 => 0#8 :: padTake [] n
+  | v :: r, n + 1 => v :: padTake r n
 
-/-- `fetchCacheLine(addr)`: the line-sized block around `addr`, zero-padded past the end of memory;
-a negative index panics -/
+/-- `fetchCacheLine(addr)`: the line-sized block around `addr` (`addr - addr % l1DCacheLineSize`),
+zero-padded past the end of memory (`if int(addr)+i >= len(Memory) { append 0 }`); a negative index
+panics (at `i = 0` already: a negative base is below `len(Memory)`).  One pass over the memory list;
+`fetchCacheLineLit` below is the literal loop, proved equal in Proofs/Mmu.lean. -/
 def fetchCacheLine (cfg : Config) (mem : List Byte) (addr : Word) : M (List Byte) := do
   let lo ← LineCache.alignDown addr.toInt cfg.l1DLineSize
   if cfg.l1DLineSize < 0 then throw (.panic "makeslice: cap out of range")
-  else fetchFrom mem lo 0 cfg.l1DLineSize.toNat
+  else if cfg.l1DLineSize = 0 then pure []
+  else if lo < 0 then throw (.panic "index out of range")
+  else pure (padTake (mem.drop lo.toNat) cfg.l1DLineSize.toNat)
 
-/-- `writeToMemory(addr, data)`: stops silently at the end of memory; a negative index panics -/
-def writeToMemory (mem : List Byte) (lo : Int) : List Byte → Nat → M (List Byte)
+/-- `data` laid over the front of `m`, cut at the end of `m` -/
+def overlay : List Byte → List Byte → List Byte
+  | m, [] => m
+  | [], _ => []
+  | _ :: ms, d :: ds => d :: overlay ms ds
+
+/-- `writeToMemory(addr, data)`: `for i, v := range data { if int(addr)+i >= len(Memory) { return };
+Memory[addr+i] = v }` — stops silently at the end of memory; a negative index panics (at `i = 0`).
+One pass; `writeToMemoryLit` is the literal loop. -/
+def writeToMemory (mem : List Byte) (lo : Int) (data : List Byte) : M (List Byte) :=
+  match data with
+  | [] => pure mem
+  | _ :: _ =>
+    if lo ≥ mem.length then pure mem
+    else if lo < 0 then throw (.panic "index out of range")
+    else pure (mem.take lo.toNat ++ overlay (mem.drop lo.toNat) data)
+
+/-! literal forms of the two loops (specification; not executed by the driver) -/
+
+/-- the body of `fetchCacheLine`'s loop for `i = k, k+1, …` (`n` iterations left) -/
+def fetchFromLit (mem : List Byte) (lo : Int) : Nat → Nat → M (List Byte)
+  | _, 0 => pure []
+  | k, n + 1 =>
+    if lo + k ≥ mem.length then do
+      let rest ← fetchFromLit mem lo (k + 1) n
+      pure (0#8 :: rest)
+    else do
+      let v ← memAt mem (lo + k)
+      let rest ← fetchFromLit mem lo (k + 1) n
+      pure (v :: rest)
+
+def fetchCacheLineLit (cfg : Config) (mem : List Byte) (addr : Word) : M (List Byte) := do
+  let lo ← LineCache.alignDown addr.toInt cfg.l1DLineSize
+  if cfg.l1DLineSize < 0 then throw (.panic "makeslice: cap out of range")
+  else fetchFromLit mem lo 0 cfg.l1DLineSize.toNat
+
+def writeToMemoryLit (mem : List Byte) (lo : Int) : List Byte → Nat → M (List Byte)
   | [], _ => pure mem
   | v :: vs, i =>
     if lo + i ≥ mem.length then pure mem
     else if lo + i < 0 then throw (.panic "index out of range")
-    else writeToMemory (mem.set (lo + i).toNat v) lo vs (i + 1)
+    else writeToMemoryLit (mem.set (lo + i).toNat v) lo vs (i + 1)
 
 /-- `pushLineToL1D(addr, line)`: push at the aligned address; when the cache overflows, the line
 announced by `PushLineWithEvictionWarning` (the last one) is evicted by its base address and
@@ -183,12 +215,12 @@ def pushLineToL1D (cfg : Config) (u : Mmu) (mem : List Byte) (addr : Word) (line
   | none => pure ({ u with l1d := c1 }, mem)
   | some ev => do
     let (_, c2) ← LineCache.evictCacheLine c1 ev.lo
-    let mem' ← writeToMemory mem ev.lo ev.data 0
+    let mem' ← writeToMemory mem ev.lo ev.data
     pure ({ u with l1d := c2 }, mem')
 
 /-- one line of `flush`: `l1DCacheLineSize` identical `writeToMemory(line.Boundary[0], line.Data)` calls -/
 def flushLine (cfg : Config) (mem : List Byte) (l : LineCache.Line) : M (List Byte) :=
-  if cfg.l1DLineSize ≤ 0 then pure mem else writeToMemory mem l.lo l.data 0
+  if cfg.l1DLineSize ≤ 0 then pure mem else writeToMemory mem l.lo l.data
 
 def flushLines (cfg : Config) : List LineCache.Line → List Byte → Int → M (List Byte × Int)
   | [], mem, cyc => pure (mem, cyc)
